@@ -1,0 +1,52 @@
+//! Verification hooks. Compiled only with `--cfg graphrs_verif`; never part of a normal build.
+//!
+//! Records, when enabled by a test harness, which work item of a data-parallel
+//! section started / finished on which rayon worker thread, and the order in which
+//! results are combined. Events are ordered by a sequence number taken under the
+//! log's mutex, never by wall-clock time.
+
+use std::sync::atomic::{AtomicBool, Ordering};
+use std::sync::Mutex;
+
+/// One recorded event: (site, phase, index, rayon thread index).
+/// phase 0 = item started, 1 = item finished, 2 = result combined.
+pub type Event = (&'static str, u8, usize, Option<usize>);
+
+static ENABLED: AtomicBool = AtomicBool::new(false);
+static LOG: Mutex<Vec<Event>> = Mutex::new(Vec::new());
+
+/// Turns recording on or off (off by default).
+pub fn enable(on: bool) {
+    ENABLED.store(on, Ordering::SeqCst);
+}
+
+/// Returns and clears the recorded events.
+pub fn take() -> Vec<Event> {
+    std::mem::take(&mut *LOG.lock().unwrap())
+}
+
+/// Records one event if recording is on.
+pub fn emit(site: &'static str, phase: u8, index: usize) {
+    if ENABLED.load(Ordering::Relaxed) {
+        LOG.lock()
+            .unwrap()
+            .push((site, phase, index, rayon::current_thread_index()));
+    }
+}
+
+/// Records "started" now and "finished" when dropped.
+pub struct Span {
+    site: &'static str,
+    index: usize,
+}
+
+pub fn span(site: &'static str, index: usize) -> Span {
+    emit(site, 0, index);
+    Span { site, index }
+}
+
+impl Drop for Span {
+    fn drop(&mut self) {
+        emit(self.site, 1, self.index);
+    }
+}
